@@ -290,6 +290,11 @@ def cli_part(chk):
                                      "%(benchmark)s %(no{key})s", "%(benchmark)s %(invocation)s %(input)z {0}"]):
             expect("improper format string %d in a command with braces" % k, ["-D", "c.yaml"], 3,
                    raw=cli_config(d, [{"B{a}": {"extra_args": "{y}"}}, "Bb"], command=command), script={}, no_start=True, msg_needed=True)
+        # the same kind of problem found by the worker threads of the parallel scheduler (runs that need not be exclusive)
+        par_bad = cli_config(d, [{"Ba": {"extra_args": "%(nope)s {b}"}}, {"Bb": {"extra_args": "%(nope)s"}}, "Bc"])
+        par_bad["runs"]["execute_exclusively"] = False
+        expect("improper format strings found by worker threads", ["-D", "c.yaml"], 3, raw=par_bad, script={}, msg_needed=True)
+        expect("--report-completion without ReBenchDB", ["-D", "--report-completion", "c.yaml"], 3, raw=ok3, script={}, no_start=True, msg_needed=True)
         undefined = cli_config(d, ["Ba"])
         undefined["experiments"]["X"]["executions"] = [{"Undefined{e}": {"suites": ["S"]}}]
         expect("undefined executor", ["-D", "c.yaml"], 3, raw=undefined, no_start=True, msg_needed=True)
